@@ -19,7 +19,6 @@ import (
 	"fmt"
 	"testing"
 
-	"go.uber.org/multierr"
 	"go.uber.org/zap"
 	"go.uber.org/zap/zapcore"
 
@@ -174,19 +173,18 @@ func TestVerifC10Service(t *testing.T) {
 			for _, n := range pl.fNotReady {
 				xByIdx[n].failNotReady = true
 			}
-			// exactly what collector.go does with the service
-			ctx := context.Background()
-			var errAll error
-			errStart := srv.Start(ctx)
-			nStart := len(w.log)
-			if errStart != nil {
-				errAll = multierr.Combine(errStart, srv.Shutdown(ctx))
-			} else {
-				errAll = srv.Shutdown(ctx)
+			pl.cx.arm(byIdx, xByIdx)
+			// exactly what collector.go does with the service (vRunLifetime), under the context scenario
+			errStart, errAll, nStart := vRunLifetime(w, pl.cx, srv.Start, srv.Shutdown)
+			if w.ret == nil {
+				w.ret = map[[2]int]bool{}
+			}
+			if pl.cx.any() {
+				out.Stat("ctx-scenario", 1)
 			}
 			c := &vCase{kind: 2, comps: comps, exts: exts, cfgw: cfgw, pipew: pipew, edges: edges, specEdges: edges,
 				deps: deps, hasConf: hasConf, fxStart: pl.fxStart, fxStop: pl.fxStop, fcStart: pl.fcStart, fcStop: pl.fcStop,
-				fCfg: pl.fCfg, fReady: pl.fReady, fNotReady: pl.fNotReady, log: w.log}
+				fCfg: pl.fCfg, fReady: pl.fReady, fNotReady: pl.fNotReady, log: w.log, cx: pl.cx, ret: w.ret}
 			c.errs = vErrList(errAll)
 			c.extOrder = vRev(vSeq(w.log[nStart:], tXStop))
 			started := vSeq(w.log[:nStart], tCStart)
